@@ -38,7 +38,7 @@ CHECKS = {
    "Held on the schedules produced (virtual time, tokio select! branch order is not seedable); benign close model (no RST) in the pipe; server windows below the HTTP/2 default only on pre-established connections (h2 stalls otherwise, see DESIGN.md).",
    "runtime monitoring: offline event-log checker over signal placements in virtual time", "DESIGN.md#c13"),
  "C14": ("fault_enumeration",
-   "Enumerates (thorough: all 1800; quick: a seeded sample) short scripts over {connect fails, connect succeeds, established connection reset} x lazy/eager plus sampled longer ones; a scripted connector feeds the real Channel and a real server; each call is judged by a reference model driven by the connector invocations actually observed during that call; sampled scripts add two concurrent calls on cloned clients (failed calls <= failed attempts observed) calls whose connection is dropped in flight and calls whose deadline has already expired; hangs are decided in virtual time. Further monitors: real unix/TCP sockets with a server that goes away and comes back, and the fail/recover scripts on a channel whose Endpoint::executor is a thread-per-task executor.",
+   "Enumerates (thorough: all 1800; quick: a seeded sample) short scripts over {connect fails, connect succeeds, established connection reset} x lazy/eager plus sampled longer ones; a scripted connector feeds the real Channel and a real server; each call is judged by a reference model driven by the connector invocations actually observed during that call; sampled scripts add two concurrent calls on cloned clients (failed calls <= failed attempts observed) calls whose connection is dropped in flight and calls whose deadline has already expired; hangs are decided in virtual time. Further monitors: real unix/TCP sockets with a server that goes away and comes back, and the fail/recover scripts on a channel whose Endpoint::executor drives every task from its own OS thread.",
    "Held on the scripts produced; calls are issued at quiescent points only (as the property says).",
    "runtime monitoring: fault-script enumeration + reference model driven by observed connector invocations", "DESIGN.md#c14"),
  "C05": ("exploration",
